@@ -1,7 +1,7 @@
 (* Property C08 (TLS over TCP) -- statements only. *)
 From Coq Require Import ZArith List Bool.
 From Coq Require String.
-Require Import PyLib SuiteTypes Crypto KeySchedule Packet Reassembly Decryptor TlsSession OutputBuilder Frames Main SessionP C08P.
+Require Import PyLib SuiteTypes Crypto KeySchedule Packet Reassembly Decryptor TlsSession OutputBuilder Frames Main SessionP C08P QuicAppendP.
 Import ListNotations.
 Open Scope Z_scope.
 
@@ -33,3 +33,11 @@ Print Assumptions C08_session_fold.
 Theorem C08_builder_fold : forall t1 t o2, build (t1 ++ t) = Ok o2 -> exists o1, build t1 = Ok o1 /\ prefix o1 o2.
 Proof. exact build_prefix. Qed.
 Print Assumptions C08_builder_fold.
+
+(* QUIC: a session processes datagrams as they are read; whatever a datagram does to the session, the frames collected so far for the
+   export stay where they are and new ones are only added behind them (the output buffer of the cut capture is a prefix of the
+   output buffer of the full capture; the datagrams built from it follow by C02_one_output_per_input_datagram when capture times differ) *)
+Theorem C08_quic_session_appends : forall C keylog ftable s p dcid ver s',
+  QuicSession.quic_handle_packet C keylog ftable s p dcid ver = Ok s' -> prefix (QuicSession.qs_output s) (QuicSession.qs_output s').
+Proof. exact QuicAppendP.quic_session_appends. Qed.
+Print Assumptions C08_quic_session_appends.
